@@ -27,6 +27,7 @@ from sc3.synth import synthdef as sdf
 
 s = Server.default
 itf = main._osc_interface
+DEFAULT_LATENCY = s.latency
 
 
 # ---- independent OSC reader (wire-level view) -------------------------------------------
@@ -119,12 +120,18 @@ class Boom(Exception):
     pass
 
 
+class BoomBase(BaseException):     # not an Exception subclass (like KeyboardInterrupt / GeneratorExit)
+    pass
+
+
 # ---- op execution -----------------------------------------------------------------------
 
 class World:
-    def __init__(self):
+    def __init__(self, latency=None):
         s._set_client_id(0)       # new node / bus / buffer allocators, default groups
         Buffer._server_caches.clear()
+        s.latency = DEFAULT_LATENCY if latency is None else float(Fraction(latency))
+        self.passed = []          # mutable argument objects handed to the library by the current op
         self.nodes, self.bufs, self.buses = [], [], []
         self.alloc, self.free = [], []
         self._wrap(s._node_allocator, 'node')
@@ -166,11 +173,15 @@ def val(w, v):
     if k == 'none':
         return None
     if k == 'l':
-        return [val(w, x) for x in v['x']]
+        r = [val(w, x) for x in v['x']]
+        w.passed.append(r)
+        return r
     if k == 't':
         return tuple(val(w, x) for x in v['x'])
     if k == 'd':
-        return {val(w, a): val(w, b) for a, b in v['x']}
+        r = {val(w, a): val(w, b) for a, b in v['x']}
+        w.passed.append(r)
+        return r
     if k == 'bus':
         return w.buses[v['i']]
     if k == 'buf':
@@ -376,8 +387,8 @@ def exc_name(e):
     return type(e).__name__
 
 
-def run_history(ops):
-    w = World()
+def run_history(ops, latency=None):
+    w = World(latency)
     steps = [None] * len(ops)
     n = len(ops)
 
@@ -400,11 +411,13 @@ def run_history(ops):
                         pos, k = level(pos + 1)
                         close_pos = pos - 1
                         if k > 0:
-                            raise Boom()
+                            raise (BoomBase() if ops[close_pos].get('base') else Boom())
                     mark(close_pos)                      # normal exit: flush recorded at the bind_exit op
-                except Boom:
+                    steps[close_pos]['addr'] = type(s.addr).__name__
+                except (Boom, BoomBase):
                     mark(close_pos)                      # nothing must have been sent
                     k -= 1
+                    steps[close_pos]['addr'] = type(s.addr).__name__
                     if k > 0:
                         return pos, k
                 except Exception as e:                   # flush failed (unencodable message) or library error
@@ -417,7 +430,15 @@ def run_history(ops):
             if o == 'bind_raise':
                 return pos + 1, int(op['k'])
             try:
+                w.passed = []
                 exec_op(w, op)
+                if op.get('then_mutate'):
+                    # the caller re-uses / changes his own argument objects after the call returned
+                    for obj in w.passed:
+                        if isinstance(obj, list):
+                            obj.append(12345); obj.insert(0, 'zzz')
+                        elif isinstance(obj, dict):
+                            obj['zzz'] = 12345
                 mark(pos)
             except Exception as e:
                 mark(pos, exc_name(e))
@@ -439,16 +460,21 @@ def run_history(ops):
     }
     if s.addr is not s._addr or type(s.addr).__name__ != 'NetAddr':
         final['addr_not_restored'] = type(s.addr).__name__
+    cache = Buffer._server_caches.get(s, {})
+    final['cached'] = sorted(k for k in cache if isinstance(k, int))
+    final['cached_none'] = sum(1 for k in cache if k is None)
+    final['latency'] = str(Fraction(s.latency)) if s.latency is not None else None
     return {'steps': steps, 'final': final}
 
 
 def main_():
     payload = json.load(open(sys.argv[1]))
     out = []
-    for ops in payload['histories']:
+    lats = payload.get('latencies') or [None] * len(payload['histories'])
+    for ops, lat in zip(payload['histories'], lats):
         LOG.clear()
         try:
-            out.append(run_history(ops))
+            out.append(run_history(ops, lat))
         except Exception as e:
             out.append({'steps': [], 'final': {}, 'crash': exc_name(e) + ': ' + str(e) + '\n' + traceback.format_exc()[-1500:]})
             # make sure a half-open bind does not leak into the next history
